@@ -1322,7 +1322,7 @@ def sample_tie(case, conv, shape, npts, result, toks):
         return
     ret = _RET[-1]
     base = conv.split('+')[0]
-    inp = 'mesh' if base in ('element', 'mesh') else base
+    inp = 'mesh' if base in ('element', 'mesh') else 'array' if base == 'array-flat' else base
     s_shape = list(shape) if inp == 'mesh' else [npts] if inp == 'array' else [1]
     vals = [num_pair(z) for z in np.asarray(ret).ravel(order='C').tolist()]
     if any(v is None for v in vals):
@@ -1407,6 +1407,12 @@ def run_sampling_case(ctx, case):
             out = garbage((len(pts),))
             sf(allpts, out=out, **kwargs)
             return out
+        if conv == 'array-flat':          # 1d: the n points as a flat (n,) array
+            return sf(allpts[0], **kwargs)
+        if conv == 'array-flat+out':
+            out = garbage((len(pts),))
+            sf(allpts[0], out=out, **kwargs)
+            return out
         if conv == 'direct-array':       # the decorated function itself, (d, N) points
             return func(allpts)
         if conv == 'direct-array+out':
@@ -1436,6 +1442,9 @@ def run_sampling_case(ctx, case):
         raise KeyError(conv)
 
     convs = list(INPUT_CONVS)
+    if len(cv) == 1 and len(pts) > 1:
+        # 1d domain: flat (n,) point arrays are accepted as well and must mean the same n points
+        convs += ['array-flat', 'array-flat+out']
     if case['ck'].startswith('vec'):
         convs += ['direct-array', 'direct-array+out', 'direct-mesh', 'direct-point']
         if len(cv) == 1:
@@ -1938,7 +1947,7 @@ MODEL_BRANCHES = ['axis/{}/{}'.format(s_, b) for s_ in 'ln' for b in ('lo', 'hi'
     ['dispatch/{}/{}'.format(k, o) for k in ('plain', 'optional', 'required') for o in ('out', 'noout')] + \
     ['retform/grid/' + f for f in ('bcast-full', 'bcast-partial', 'const', 'lead1d')] + \
     ['sample-tie/{}/{}'.format(k, c) for k in ('oopOnly', 'dual', 'ipOnly')
-     for c in ('element', 'mesh', 'mesh+out', 'array', 'array+out', 'point')] + \
+     for c in ('element', 'mesh', 'mesh+out', 'array', 'array+out', 'array-flat', 'array-flat+out', 'point')] + \
     ['input/accepted', 'input/rejected']
 
 
